@@ -16,6 +16,7 @@ EXTENDS Ownership, TLC, Json
 CONSTANTS MaxAbs,      \* bound on stored values (in-place writes are +1 / bitwise not)
           GenDepth,    \* behaviours of this length are printed by the GEN configuration
           WithStreams, \* explore the C stream interface too (off in the quick model to keep it small)
+          WithShrink,  \* explore Buffer::shrink_to_fit and empty prefix slices (multiplies the states by the capacities)
           WithNested   \* explore arrays of nested types over two custom regions (dictionary: keys + values)
 
 VARIABLES st, hist
@@ -58,8 +59,9 @@ A_Clone ==
 
 A_Slice ==
   /\ FreeHandles # {}
-  /\ \E x \in LiveH : \E o \in 0..1 : \E n \in 1..2 :
+  /\ \E x \in LiveH : \E o \in 0..1 : \E n \in 0..2 :
        /\ CanSlice(st, x, o, n) /\ ~IsBitmap(x) /\ <<o, n>> # <<0, st.hd[x].len>>
+       /\ (n = 0 => WithShrink /\ st.hd[x].kind = "buffer" /\ o = 0 /\ st.hd[x].len > 0)     \* an empty prefix of a Buffer
        /\ LET y == Least(FreeHandles) IN Do(Slice(st, x, y, o, n), [op |-> "slice", x |-> x, y |-> y, o |-> o, n |-> n])
 
 A_Wrap ==
@@ -113,6 +115,9 @@ A_Xor ==
      ELSE /\ FreeRegions # {}
           /\ LET nr == Least(FreeRegions) IN Do(XorCopy(st, x, nr, RegionSize), [op |-> "xor", x |-> x, nr |-> nr])
 
+(* Buffer::shrink_to_fit                                                     *)
+A_Shrink == WithShrink /\ \E x \in LiveH : st.hd[x].kind = "buffer" /\ Do(ShrinkToFit(st, x), [op |-> "shrink", x |-> x])
+
 A_Claim == \E x \in LiveH : st.hd[x].kind \in {"buffer", "array"} /\ ~st.hd[x].nested /\ Do(Claim(st, x), [op |-> "claim", x |-> x])
 
 A_Export ==
@@ -135,7 +140,7 @@ A_StreamNext ==
        IN Do(StreamNext(st, s, y, nr), [op |-> "stream_next", s |-> s, y |-> y, nr |-> nr])
 
 Next == \/ A_New \/ A_NewNested \/ A_Clone \/ A_Slice \/ A_Wrap \/ A_WrapN \/ A_Drop \/ A_IntoMutable \/ A_IntoVec
-        \/ A_ArrayMut \/ A_TryErr \/ A_Xor \/ A_Claim \/ A_Export \/ A_Import \/ A_StreamExport \/ A_StreamNext
+        \/ A_ArrayMut \/ A_TryErr \/ A_Xor \/ A_Shrink \/ A_Claim \/ A_Export \/ A_Import \/ A_StreamExport \/ A_StreamNext
 
 Spec == Init /\ [][Next]_vars
 
